@@ -209,8 +209,26 @@ def compress(b, codec):
     raise ValueError(codec)
 
 
+def page_stats(mode, de, max_def, d_nullel=None):
+    """Optional Statistics of a data page header.  Readers must decode the same rows whatever it says:
+    mode None      no statistics
+         'all'     null_count = every entry without a value (null / empty collections and null elements; parquet-mr)
+         'elems'   null_count = null ELEMENTS only (some writers)
+         'zero'    null_count = 0 whatever the page holds"""
+    if mode is None:
+        return None
+    pt = _thrift()
+    if mode == "all":
+        n = sum(1 for d in de if d != max_def)
+    elif mode == "elems":
+        n = sum(1 for d in de if d_nullel is not None and d == d_nullel and d != max_def)
+    else:
+        n = 0
+    return pt.Statistics(null_count=n)
+
+
 def data_page(rep, de, vals, max_rep, max_def, ptype, version, dictionary, level_style, num_rows, codec=None,
-              legacy_dict=False):
+              legacy_dict=False, stats=None, is_compressed=None, d_nullel=None):
     """One data page (header bytes + payload) for the entries rep/de and their non-null values.
     dictionary: None (PLAIN) or list of distinct values (indices RLE_DICTIONARY)."""
     pt = _thrift()
@@ -239,18 +257,22 @@ def data_page(rep, de, vals, max_rep, max_def, ptype, version, dictionary, level
         payload = compress(payload, codec)
         dph = pt.DataPageHeader(num_values=n, encoding=enc,
                                 definition_level_encoding=pt.Encoding.RLE,
-                                repetition_level_encoding=pt.Encoding.RLE, i32=1)
+                                repetition_level_encoding=pt.Encoding.RLE,
+                                statistics=page_stats(stats, de, max_def, d_nullel), i32=1)
         ph = pt.PageHeader(type=pt.PageType.DATA_PAGE, uncompressed_page_size=usize,
                            compressed_page_size=len(payload), data_page_header=dph, i32=1)
     else:
         # v2: the level streams are never compressed, only the values
+        # DataPageHeaderV2.is_compressed: absent means true; false = the values of THIS page are stored
+        # uncompressed although the chunk has a codec (pages of one chunk may differ)
         usize = len(rl) + len(dl) + len(vbytes)
-        payload = rl + dl + compress(vbytes, codec)
+        really = codec is not None and is_compressed is not False
+        payload = rl + dl + (compress(vbytes, codec) if really else vbytes)
         nnull = sum(1 for d in de if d != max_def)
         dph = pt.DataPageHeaderV2(num_values=n, num_nulls=nnull, num_rows=num_rows, encoding=enc,
                                   definition_levels_byte_length=len(dl),
                                   repetition_levels_byte_length=len(rl),
-                                  is_compressed=codec is not None, i32=1)
+                                  is_compressed=is_compressed, statistics=page_stats(stats, de, max_def, d_nullel), i32=1)
         ph = pt.PageHeader(type=pt.PageType.DATA_PAGE_V2, uncompressed_page_size=usize,
                            compressed_page_size=len(payload), data_page_header_v2=dph, i32=1)
     return bytes(ph.to_bytes()) + payload, usize + len(ph.to_bytes())
@@ -410,14 +432,22 @@ def write_file(path, cols, row_groups):
                     encs = [pt.Encoding.RLE, pt.Encoding.PLAIN,
                             pt.Encoding.PLAIN_DICTIONARY if lay.get("legacy_dict") else pt.Encoding.RLE_DICTIONARY]
                 data_off = len(body)
-                for (r, d, v, nr) in pages:
+                flags = lay.get("is_compressed") or []
+                pstats = lay.get("page_stats") or []
+                dne = None
+                if leaf["which"] != "flat" and leaf["elem_opt"]:
+                    dne = max_def - 1
+                for k, (r, d, v, nr) in enumerate(pages):
                     pg, us = data_page(r, d, v, max_rep, max_def, leaf["ptype"], lay["version"], dictionary,
-                                       lay.get("level_style", "mixed"), nr, codec, bool(lay.get("legacy_dict")))
+                                       lay.get("level_style", "mixed"), nr, codec, bool(lay.get("legacy_dict")),
+                                       stats=(pstats[k] if k < len(pstats) else None),
+                                       is_compressed=(flags[k] if k < len(flags) else None), d_nullel=dne)
                     body += pg
                     usize_total += us
                 size = len(body) - start
+                cstat = page_stats(lay.get("chunk_stats"), de, max_def, dne)
                 cmd = ThriftObject.from_fields(
-                    "ColumnMetaData", type=PTYPES[leaf["ptype"]][0], path_in_schema=list(leaf["path"]),
+                    "ColumnMetaData", type=PTYPES[leaf["ptype"]][0], path_in_schema=list(leaf["path"]), statistics=cstat,
                     encodings=encs, codec=CODECS[codec], num_values=len(rep), data_page_offset=data_off,
                     dictionary_page_offset=dict_off, total_uncompressed_size=usize_total,
                     total_compressed_size=size, i32list=[1, 4])
